@@ -287,16 +287,23 @@ def word_index(ctx):
     look = []
     for e in rets:
         for s_ in subterms(('w', term(e.value))):
-            if isinstance(s_, tuple) and s_[0] == 'after-loop' and s_[3] == 'wi':
-                look.append(s_[4])
+            # the index list is the first argument of change_base(<indices>, 2048, 256, ...)
+            if isinstance(s_, tuple) and s_[0] == 'call' and s_[1] == 'change_base' and len(s_[2]) >= 3 and s_[2][1] == 2048:
+                a0 = s_[2][0]
+                if isinstance(a0, tuple) and a0[0] == 'after-loop' and isinstance(a0[4], tuple) and a0[4][0] == 'list' and len(a0[4]) == 2:
+                    look.append(a0[4][1])
+                elif isinstance(a0, tuple) and a0[0] == 'repeat':
+                    look.append(a0[3])
+                else:
+                    ctx.undecided('to_entropy: index list has an unrecognised shape: %s' % show(a0)[:100])
     if not look:
         ctx.undecided('to_entropy: the index list built from the words was not found')
     for l in set(look):
-        ctx.saw('to_entropy index list element: %s' % show(l)[:120])
-        ok = isinstance(l, tuple) and l[0] == 'list' and len(l) == 2 and isinstance(l[1], tuple) and l[1][:3] == ('mcall', wl, 'index') and isinstance(l[1][3][0], tuple) and l[1][3][0][0] == 'elem'
+        ctx.saw('to_entropy index of a word: %s' % show(l)[:120])
+        ok = isinstance(l, tuple) and l[:3] == ('mcall', wl, 'index') and isinstance(l[3][0], tuple) and l[3][0][0] == 'elem'
         if ok:
             continue
-        order_dep = [x for x in subterms(l) if isinstance(x, tuple) and x[0] in ('call', 'mcall') and any('bisect' in str(y) or 'searchsorted' in str(y) for y in x[:3])]
+        order_dep = [x for x in subterms(('w', l)) if isinstance(x, tuple) and x[0] in ('call', 'mcall') and any('bisect' in str(y) or 'searchsorted' in str(y) for y in x[:3])]
         if order_dep:
             d = os.path.join(ctx.repo.root, 'bitcoinlib', 'wordlist')
             unsorted_lists = []
